@@ -562,7 +562,8 @@ pub fn main_with(cluster: bool) {
     }
     if !only_replay && mode == "thrx" {
         // exhaustive: every interleaving of the fixed small scenarios (cases = cap per scenario)
-        thr::exhaustive(&mut log, &mut st, cases);
+        let only: Vec<u64> = args.str("scn", "").split(',').filter_map(|x| x.parse().ok()).collect();
+        thr::exhaustive(&mut log, &mut st, cases, &only);
     }
     st.add("lines", log.lines);
     st.write_json(&std::path::Path::new(&out).join("stats.json"));
@@ -588,6 +589,7 @@ mod thr {
         setup: Vec<String>,
         exiter: u64,
         kill: bool,
+        do_exit: bool,
         evlog: EvLog,
         ctl: Arc<ThreadCtl>,
         tx: mpsc::Sender<BTreeMap<u64, ActorCell>>,
@@ -613,12 +615,14 @@ mod thr {
             verif::thread_register(ctl.clone());
             verif::point("h.go");
             let x = cells[&exiter].clone();
-            if kill {
-                x.kill();
-            } else {
-                x.stop(None);
+            if do_exit {
+                if kill {
+                    x.kill();
+                } else {
+                    x.stop(None);
+                }
+                let _ = x.wait(None).await;
             }
-            let _ = x.wait(None).await;
             verif::point("h.waited");
             verif::thread_unregister();
             // let the racer finish, then let every monitor handle what it was sent
@@ -667,23 +671,47 @@ mod thr {
         pub tag: String,
         pub n_actors: u64,
         pub setup: Vec<String>,
-        pub prog: Vec<String>,
+        /// one program per racer thread
+        pub progs: Vec<Vec<String>>,
         pub kill: bool,
+        /// does the owner thread run the exit of actor 0 at all?
+        pub exit: bool,
     }
 
     /// the fixed small scenarios of the exhaustive sweep
     pub fn scenario(i: u64) -> Option<Spec> {
+        // actor 0 (the exiter) is a member of (1,0) with actor 1 and monitors it; actor 2 monitors
+        // scope 1 (and, from scenario 6 on, group (1,0) as well)
         let base = vec!["join 1 0 0,1".to_string(), "monitor 0 0".to_string(), "monitorscope 1 2".to_string()];
-        let (prog, kill): (Vec<&str>, bool) = match i {
-            0 => (vec!["monitor 1 0"], false),
-            1 => (vec!["monitorscope 0 0"], true),
-            2 => (vec!["leave 1 0 0,1"], false),
-            3 => (vec!["join 1 1 0,1"], false),
-            4 => (vec!["join 1 0 0"], true),
-            5 => (vec!["demonitor 0 0", "monitor 0 0"], false),
+        let mut watch = base.clone();
+        watch.push("monitor 0 2".to_string());
+        let (setup, progs, kill, exit): (Vec<String>, Vec<Vec<&str>>, bool, bool) = match i {
+            0 => (base, vec![vec!["monitor 1 0"]], false, true),
+            1 => (base, vec![vec!["monitorscope 0 0"]], true, true),
+            2 => (base, vec![vec!["leave 1 0 0,1"]], false, true),
+            3 => (base, vec![vec!["join 1 1 0,1"]], false, true),
+            4 => (base, vec![vec!["join 1 0 0"]], true, true),
+            5 => (base, vec![vec!["demonitor 0 0", "monitor 0 0"]], false, true),
+            // who is told about the automatic Leave: a bystander (de)monitors during the exit
+            6 => (watch, vec![vec!["demonitor 0 2"]], false, true),
+            7 => (watch, vec![vec!["monitor 0 1"]], true, true),
+            8 => (watch, vec![vec!["demonitorscope 1 2"]], false, true),
+            9 => (watch, vec![vec!["monitorscope 0 1"]], false, true),
+            // who is told about a join / a leave: two racers, no exit
+            10 => (watch, vec![vec!["join 1 0 1,2"], vec!["demonitor 0 2"]], false, false),
+            11 => (watch, vec![vec!["join 1 1 1"], vec!["monitor 1 2"]], false, false),
+            12 => (watch, vec![vec!["leave 1 0 1"], vec!["demonitorscope 1 2"]], false, false),
+            13 => (watch, vec![vec!["join 1 0 2"], vec!["monitorscope 0 1"]], false, false),
             _ => return None,
         };
-        Some(Spec { tag: format!("x:{i}"), n_actors: 3, setup: base, prog: prog.iter().map(|s| s.to_string()).collect(), kill })
+        Some(Spec {
+            tag: format!("x:{i}"),
+            n_actors: 3,
+            setup,
+            progs: progs.iter().map(|p| p.iter().map(|s| s.to_string()).collect()).collect(),
+            kill,
+            exit,
+        })
     }
 
     fn random_spec(seed: u64) -> (Spec, Sched) {
@@ -708,24 +736,37 @@ mod thr {
         if rng.chance(1, 2) {
             setup.push(format!("monitor {} 2", rng.below(2)));
         }
-        // racer program
-        let mut prog: Vec<String> = Vec::new();
-        for _ in 0..rng.range(1, 3) {
-            let c = rng.below(10);
-            let g = rng.below(2);
-            let s = rng.range(1, 2);
-            prog.push(match c {
-                0..=3 => format!("join {s} {g} {}", *rng.pick(&["0", "0,1", "1,0", "0,0"])),
-                4 | 5 => format!("monitor {g} 0"),
-                6 => format!("monitorscope {} 0", rng.range(0, 2)),
-                7 => format!("leave {s} {g} {}", *rng.pick(&["0", "0,1"])),
-                8 => format!("join {s} {g} 1"),
-                _ => format!("demonitor {g} 0"),
-            });
+        // racer programs: calls naming the exiter, and bystanders (de)monitoring meanwhile
+        let n_racers = rng.range(1, 2);
+        let mut progs: Vec<Vec<String>> = Vec::new();
+        for r in 0..n_racers {
+            let mut prog: Vec<String> = Vec::new();
+            for _ in 0..rng.range(1, 3) {
+                let c = rng.below(16);
+                let g = rng.below(2);
+                let s = rng.range(1, 2);
+                let by = rng.range(1, 2); // a bystander
+                prog.push(match c {
+                    0..=2 => format!("join {s} {g} {}", *rng.pick(&["0", "0,1", "1,0", "0,0"])),
+                    3 | 4 => format!("monitor {g} 0"),
+                    5 => format!("monitorscope {} 0", rng.range(0, 2)),
+                    6 => format!("leave {s} {g} {}", *rng.pick(&["0", "0,1"])),
+                    7 => format!("join {s} {g} {}", *rng.pick(&["1", "2", "1,2"])),
+                    8 => format!("demonitor {g} 0"),
+                    9 | 10 => format!("monitor {g} {by}"),
+                    11 | 12 => format!("demonitor {g} {by}"),
+                    13 => format!("monitorscope {} {by}", rng.range(0, 2)),
+                    14 => format!("demonitorscope {} {by}", rng.range(0, 2)),
+                    _ => format!("leave {s} {g} {}", *rng.pick(&["1", "2"])),
+                });
+            }
+            let _ = r;
+            progs.push(prog);
         }
         let kill = rng.chance(1, 3);
         let sticky = rng.below(4);
-        (Spec { tag: seed.to_string(), n_actors, setup, prog, kill }, Sched::Random { rng, sticky })
+        let exit = rng.chance(5, 6);
+        (Spec { tag: seed.to_string(), n_actors, setup, progs, kill, exit }, Sched::Random { rng, sticky })
     }
 
     /// `thrcase <seed>` (random) or `thrcase x:<scenario>:<choices>` (scripted schedule)
@@ -734,7 +775,8 @@ mod thr {
             let mut it = rest.split(':');
             let scn: u64 = it.next().and_then(|x| x.parse().ok()).unwrap_or(0);
             let prefix: Vec<usize> = it.next().unwrap_or("").chars().filter_map(|c| c.to_digit(10).map(|d| d as usize)).collect();
-            if let Some(spec) = scenario(scn) {
+            if let Some(mut spec) = scenario(scn) {
+                spec.tag = tag.to_string(); // the tag IS the schedule: keep it for the next replay
                 let mut sched = Sched::Script { prefix, taken: vec![], opts: vec![] };
                 run_spec(log, st, spec, &mut sched);
             }
@@ -749,9 +791,13 @@ mod thr {
     }
 
     /// every schedule of every fixed scenario (stateless DFS over the branching steps)
-    pub fn exhaustive(log: &mut Log, st: &mut Stats, max_runs: u64) {
+    pub fn exhaustive(log: &mut Log, st: &mut Stats, max_runs: u64, only: &[u64]) {
         let mut scn = 0;
         while let Some(_) = scenario(scn) {
+            if !only.is_empty() && !only.contains(&scn) {
+                scn += 1;
+                continue;
+            }
             let mut stack: Vec<Vec<usize>> = vec![vec![]];
             let mut runs = 0u64;
             while let Some(prefix) = stack.pop() {
@@ -782,20 +828,18 @@ mod thr {
     }
 
     fn run_spec(log: &mut Log, st: &mut Stats, spec: Spec, sched: &mut Sched) {
-        let Spec { tag, n_actors, setup, prog, kill } = spec;
+        let Spec { tag, n_actors, setup, progs, kill, exit } = spec;
         let exiter = 0u64;
-        // for a scripted schedule the tag carries the choices made so far; completed below
         let seed = tag.clone();
 
         let evlog: EvLog = Arc::new(Mutex::new(Vec::new()));
         let ctl_a = ThreadCtl::new();
-        let ctl_b = ThreadCtl::new();
         let (tx, rx) = mpsc::channel();
         let (tx_racer_done, rx_racer_done) = mpsc::channel();
         let (tx_done, rx_done) = mpsc::channel();
         let (tx_finish, rx_finish) = mpsc::channel();
         let (ev2, ctl2, setup2) = (evlog.clone(), ctl_a.clone(), setup.clone());
-        let ha = std::thread::spawn(move || owner_body(n_actors, setup2, exiter, kill, ev2, ctl2, tx, rx_racer_done, tx_done, rx_finish));
+        let ha = std::thread::spawn(move || owner_body(n_actors, setup2, exiter, kill, exit, ev2, ctl2, tx, rx_racer_done, tx_done, rx_finish));
         let cells = match rx.recv_timeout(Duration::from_secs(20)) {
             Ok(c) => c,
             Err(_) => {
@@ -816,22 +860,59 @@ mod thr {
         let _ = w.take_events();
         log.rec("tsync", w.observe());
 
-        // racer thread
-        let cur: Arc<Mutex<String>> = Arc::new(Mutex::new(String::new()));
-        let (cur2, ctl_b2, prog2, cells2) = (cur.clone(), ctl_b.clone(), prog.clone(), cells.clone());
-        let hb = std::thread::spawn(move || {
-            verif::thread_register(ctl_b2.clone());
-            for l in &prog2 {
-                *cur2.lock().unwrap() = l.clone();
-                verif::point("h.act");
-                let t: Vec<&str> = l.split_whitespace().collect();
-                apply_pg(&cells2, &t);
-            }
-            verif::thread_unregister();
-            ctl_b2.finish();
-        });
+        // racer threads (tid 1..)
+        let mut ctls = vec![ctl_a.clone()];
+        let mut curs: Vec<Arc<Mutex<String>>> = vec![Arc::new(Mutex::new(String::new()))];
+        let mut hbs = Vec::new();
+        for prog in &progs {
+            let ctl_b = ThreadCtl::new();
+            let cur: Arc<Mutex<String>> = Arc::new(Mutex::new(String::new()));
+            ctls.push(ctl_b.clone());
+            curs.push(cur.clone());
+            let (prog2, cells2) = (prog.clone(), cells.clone());
+            hbs.push(std::thread::spawn(move || {
+                verif::thread_register(ctl_b.clone());
+                for l in &prog2 {
+                    *cur.lock().unwrap() = l.clone();
+                    verif::point("h.act");
+                    let t: Vec<&str> = l.split_whitespace().collect();
+                    apply_pg(&cells2, &t);
+                }
+                verif::thread_unregister();
+                ctl_b.finish();
+            }));
+        }
 
-        let ctls = [ctl_a.clone(), ctl_b.clone()];
+        // what the real tables say right now about one group and about the world listeners
+        let region_obs = |w: &World, key: Option<(u64, u64)>, pay: Option<Vec<u64>>, ex: Option<bool>| -> String {
+            let snap = pg::verif_snapshot();
+            let gl: Vec<u64> = match key {
+                Some((s, g)) => snap
+                    .map
+                    .iter()
+                    .find(|(ss, gg, _, _)| scope_back(ss) == s && group_back(gg) == g)
+                    .map(|(_, _, _, lis)| w.ks(lis, true))
+                    .unwrap_or_default(),
+                None => vec![],
+            };
+            let mut wd: Vec<(u64, String)> = snap
+                .world
+                .iter()
+                .map(|(s, _, lis)| (scope_back(s), format!("{}:{}", scope_back(s), plus(&w.ks(lis, true)))))
+                .collect();
+            wd.sort();
+            format!(
+                "o gl={} world={} pay={} ex={}",
+                plus(&gl),
+                semi(wd.into_iter().map(|x| x.1).collect()),
+                pay.map(|p| plus(&p)).unwrap_or("-".into()),
+                ex.map(|e| (e as u8).to_string()).unwrap_or("1".into())
+            )
+        };
+        let entry_exists = |key: (u64, u64)| -> bool {
+            pg::verif_snapshot().map.iter().any(|(s, g, _, _)| scope_back(s) == key.0 && group_back(g) == key.1)
+        };
+
         let x = cells[&exiter].clone();
         let mut last: Option<usize> = None;
         let mut a_done = false;
@@ -852,15 +933,16 @@ mod thr {
             }
             if hung {
                 log.rec("skip hung", "thread-hung");
-                ctl_a.release();
-                ctl_b.release();
+                for c in &ctls {
+                    c.release();
+                }
                 break;
             }
             if parked.is_empty() {
                 break;
             }
             // `Stopped` is published: a `wait()` on ANY thread may return from now on. Whatever the
-            // racer is in the middle of, the exiter must be in no member or listener list already
+            // racers are in the middle of, the exiter must be in no member or listener list already
             if !waited_logged && x.get_status() == ActorStatus::Stopped {
                 waited_logged = true;
                 let (lk, lw) = listener_keys(&x);
@@ -890,7 +972,30 @@ mod thr {
             let x_dead_before = x.get_status() >= ActorStatus::Stopping;
             let members_before = member_keys(&x);
             let listeners_before = listener_keys(&x);
-            let line = cur.lock().unwrap().clone();
+            let line = curs[tid].lock().unwrap().clone();
+            let lw: Vec<&str> = line.split_whitespace().collect();
+            let kind = lw.first().copied().unwrap_or("");
+            let line_key: Option<(u64, u64)> = if lw.len() >= 3 { Some((lw[1].parse().unwrap_or(0), lw[2].parse().unwrap_or(0))) } else { None };
+            // observations of the change / notify regions are taken BEFORE the region runs: nobody
+            // else moves meanwhile, so this is what the region itself reads under its locks
+            let pre_obs: Option<String> = if tid == 0 {
+                match point {
+                    "pg.leave_all.key" | "pg.leave_all.notify" => Some("owner".into()),
+                    _ => None,
+                }
+            } else {
+                match (point, kind) {
+                    ("pg.join.filtered", "join") => {
+                        let pay: Vec<u64> = parse_ks(lw[3]).into_iter().filter(|k| cells.get(k).map(|c| c.get_status() < ActorStatus::Stopping).unwrap_or(false)).collect();
+                        Some(region_obs(&w, line_key, Some(pay), None))
+                    }
+                    ("h.act", "leave") => Some(region_obs(&w, line_key, None, Some(entry_exists(line_key.unwrap_or((0, 0)))))),
+                    ("pg.join.notify", "join") | ("pg.leave.notify", "leave") => Some(region_obs(&w, None, None, None)),
+                    _ => None,
+                }
+            };
+            // for the owner the key of a leave_all iteration is only known afterwards: keep what is needed
+            let owner_pre = if tid == 0 && pre_obs.is_some() { Some(pg::verif_snapshot()) } else { None };
             ctls[tid].grant();
             if tid == 0 && point == "h.waited" {
                 // the owner unregisters after this point and never parks again
@@ -900,8 +1005,14 @@ mod thr {
             }
             steps += 1;
             // linearisation: an op takes effect in the region that holds its locks; the exit
-            // sequence is reported region by region (lean: markDead/demonitorAll/takeMem/leaveKey/finishLeave)
+            // sequence is reported region by region
+            let mut obs: Option<String> = None;
             let op: Option<String> = if tid == 0 {
+                let world_of = |snap: &pg::VerifSnapshot| -> String {
+                    let mut wd: Vec<(u64, String)> = snap.world.iter().map(|(s, _, lis)| (scope_back(s), format!("{}:{}", scope_back(s), plus(&w.ks(lis, true))))).collect();
+                    wd.sort();
+                    semi(wd.into_iter().map(|x| x.1).collect())
+                };
                 match point {
                     "status.publish" if !x_dead_before && x.get_status() >= ActorStatus::Stopping => Some(format!("dead {exiter}")),
                     "status.pg_demonitor" => Some(format!("demontake {exiter}")),
@@ -917,36 +1028,55 @@ mod thr {
                     "pg.leave_all.key" => {
                         // which forward entry did this iteration take the exiter out of?
                         let after = member_keys(&x);
-                        members_before.iter().find(|k| !after.contains(k)).map(|(s, g)| format!("leavekey {exiter} {s} {g}"))
+                        let k = members_before.iter().find(|k| !after.contains(k)).cloned();
+                        if let (Some((s, g)), Some(pre)) = (k, &owner_pre) {
+                            let gl: Vec<u64> = pre
+                                .map
+                                .iter()
+                                .find(|(ss, gg, _, _)| scope_back(ss) == s && group_back(gg) == g)
+                                .map(|(_, _, _, lis)| w.ks(lis, true))
+                                .unwrap_or_default();
+                            obs = Some(format!("o gl={} world={} pay=- ex=1", plus(&gl), world_of(pre)));
+                        }
+                        k.map(|(s, g)| format!("leavekey {exiter} {s} {g}"))
                     }
-                    "pg.leave_all.notify" => Some(format!("finishleave {exiter}")),
+                    "pg.leave_all.notify" => {
+                        if let Some(pre) = &owner_pre {
+                            obs = Some(format!("o gl=- world={} pay=- ex=1", world_of(pre)));
+                        }
+                        Some(format!("finishleave {exiter}"))
+                    }
                     _ => None,
                 }
             } else {
-                let kind = line.split_whitespace().next().unwrap_or("");
+                obs = pre_obs;
                 match (point, kind) {
                     ("pg.join.filtered", "join") => Some(line.clone()),
+                    ("pg.join.notify", "join") => Some("joinnotify".to_string()),
+                    ("pg.leave.notify", "leave") => Some("leavenotify".to_string()),
                     ("pg.monitor.relations", "monitor") => Some(line.clone()),
                     ("pg.monitor_scope.relations", "monitorscope") => Some(line.clone()),
-                    ("h.act", "leave") | ("h.act", "demonitor") => Some(line.clone()),
+                    ("h.act", "leave") | ("h.act", "demonitor") | ("h.act", "demonitorscope") => Some(line.clone()),
                     ("pg.monitor.recheck", "monitor") => Some(line.replacen("monitor", "monrecheck", 1)),
                     ("pg.monitor_scope.recheck", "monitorscope") => Some(line.replacen("monitorscope", "monscoperecheck", 1)),
-                    ("pg.join.entered", "join") => Some(format!("joincleanup {}", line.split_whitespace().nth(3).unwrap_or("-"))),
+                    ("pg.join.entered", "join") => Some(format!("joincleanup {} {} {}", lw[1], lw[2], lw.get(3).copied().unwrap_or("-"))),
                     _ => None,
                 }
             };
             match op {
                 Some(o) => {
                     st.bump(&format!("thr_{}", o.split_whitespace().next().unwrap_or("")));
-                    if x_dead_before && tid == 1 && o.contains(" 0") {
+                    if x_dead_before && tid >= 1 && o.contains(" 0") {
                         st.bump("thr_op_on_exiting_actor");
                     }
-                    log.rec(format!("t:{o}"), "-");
+                    log.rec(format!("t:@{tid} {o}"), obs.unwrap_or("-".into()));
                 }
                 None => log.rec(format!("t:skip {point}"), "-"),
             }
         }
-        let _ = hb.join();
+        for hb in hbs {
+            let _ = hb.join();
+        }
         let _ = tx_racer_done.send(());
         let _ = rx_done.recv_timeout(Duration::from_secs(20));
         st.add("thr_steps", steps);
